@@ -592,7 +592,7 @@ class DateTimeFieldFormat(AbstractFieldFormat):
 
         try:
             result = time.strptime(value_to_validate, self.strptime_format)
-        except ValueError:
+        except (ValueError, re.error):
             raise errors.FieldValueError(
                 "date must match format %s (%s) but is: %s (%s)"
                 % (
